@@ -71,13 +71,15 @@ def run(tier):
     run = Run(PROP, tier, 'proof')
     specs.selfcheck()
     h = build()
+    msyn = h.monomorphise(['f32', 'f64'], bound='<S: BaseFloat>', method_syntax='only', soft=True)
     mono = h.monomorphise(['f32', 'f64'], bound='<S: BaseFloat>') if tier == 'thorough' else []
     S, inv, meta = facts.extract(PROP, h.src())
-    report_dropped(run, meta)
+    report_dropped(run, meta, h)
     run_specs(run, S, h)
     run.floor('roots', len(run.roots), len(h.specs))
     if mono:
         run.notes['monomorphic_instantiations'] = {'types': ['f32', 'f64'], 'roots': len(mono)}
+    run.notes['monomorphic_method_syntax_roots'] = len([n_ for n_ in msyn if n_ in run.roots])
     return run.finish(
         explanation='The Hamilton product (generated on the spec side from i^2=j^2=k^2=ijk=-1), the q*v shortcut v + 2 qv x (qv x v + s v), conjugate, one/zero, +,-,neg, scalar *,/,%, dot, magnitude2, Rotation::invert = conj/|q|^2, rotate_vector/rotate_point and the scalar-on-the-left forms are summarised from MIR and compared component-wise with the definitions; q*invert(q) = invert(q)*q = one() is checked on the composed code. Associativity, distributivity, norm multiplicativity, the sandwich identity, length preservation and (pq)v = p(qv) for unit quaternions are consequences verified on the spec side on every run.',
         trusted_base=['rustc nightly type checking / trait resolution / MIR construction', 'mirsum abstract interpreter and scalar-operation models (cast of the literal 2 is exact)', 'rules/algebra.py normal forms', 'rules/specs.py definitions, cross-checked by specs.selfcheck()', 'field semantics of + - * /'],
